@@ -229,7 +229,7 @@ def run_shard(arg):
     i, n, t = arg
     part = engine.Part()
     w = engine.worker("fast")
-    Ds = [D for k, D in enumerate(subsets() if t == "thorough" else quick_subsets()) if k % n == i]
+    Ds = [D for k, D in enumerate(subsets()) if k % n == i]       # both tiers: all admissible subsets
     docs = [model(D) for D in Ds]
     res = X.run_docs(w, docs, want=["dump"], batch=20)
     for D, doc, r in zip(Ds, docs, res):
@@ -392,7 +392,7 @@ def run_late(rep):
 
 def main():
     t = engine.tier()
-    n_sub = sum(1 for _ in (subsets() if t == "thorough" else quick_subsets()))
+    n_sub = sum(1 for _ in subsets())
     rep = engine.Report(PID, "exploration",
                         "%d subsets of the nine declaration levels of one name (global, template parameter, template local, function "
                         "parameter, function local, nested block, iteration binder, quantifier binder, select binder; pairs that "
